@@ -1,5 +1,8 @@
 import Svgbob.Proofs.RectSound
 import Svgbob.Proofs.TableLocal
+import Svgbob.Proofs.RectStrokes
+import Mathlib.Tactic.SplitIfs
+import Mathlib.Tactic.Tauto
 /-!
 # C03 — diagrams of `- | +` and labels render exactly the strokes the characters denote
 
@@ -113,6 +116,104 @@ theorem rect_replaces_its_sides (frags : List Frag) (r : Frag) (h : endorseRect 
   have hr := endorseRect_some frags r h
   obtain ⟨hl, hs⟩ := isRect_sides frags hr
   exact ⟨hl, linesAreSides_mem frags hs⟩
+
+/-! ## From the cells to the rendered strokes, as sets of rational points
+
+The three stages that touch a stroke after the table lookup — moving the cell-local fragments to
+their cell, the greedy fragment merge of the scope, and the replacement of a four-line contact
+group by a rectangle — keep the set of stroked points, for every rational point of the plane. -/
+
+/-- every segment the specification can name -/
+def allSegs : List (Pt × Pt) :=
+  [(⟨0, 1000⟩, ⟨1000, 1000⟩), (⟨500, 0⟩, ⟨500, 2000⟩), (⟨500, 1000⟩, ⟨1000, 1000⟩),
+   (⟨0, 1000⟩, ⟨500, 1000⟩), (⟨500, 0⟩, ⟨500, 1000⟩), (⟨500, 1000⟩, ⟨500, 2000⟩)]
+
+theorem spec_subset (ch u d l r : Char) : ∀ se ∈ specStrokes ch u d l r, se ∈ allSegs := by
+  intro se h
+  unfold specStrokes at h
+  split_ifs at h <;> simp_all [allSegs] <;> tauto
+
+/-- each of them is stored start-before-end and lies on the quarter-cell grid -/
+theorem allSegs_proper : ∀ se ∈ allSegs, se.1.cmp se.2 = .lt ∧ OnGrid se.1 ∧ OnGrid se.2 := by
+  intro se h
+  simp only [allSegs, List.mem_cons, List.mem_nil_iff, or_false] at h
+  rcases h with rfl | rfl | rfl | rfl | rfl | rfl <;>
+    exact ⟨by decide, ⟨by decide, by decide⟩, ⟨by decide, by decide⟩⟩
+
+theorem segsOf_some (fs : List Frag) (segs : List (Pt × Pt)) (h : segsOf fs = some segs) :
+    ∀ f ∈ fs, ∃ s e, f = .line s e false ∧ (s, e) ∈ segs := by
+  induction fs generalizing segs with
+  | nil => simp
+  | cons f fs ih =>
+    cases f with
+    | line s e b =>
+      cases b with
+      | true => simp [segsOf] at h
+      | false =>
+        simp only [segsOf, Option.map_eq_some_iff] at h
+        obtain ⟨rest, hrest, rfl⟩ := h
+        intro g hg
+        rcases List.mem_cons.mp hg with rfl | hg
+        · exact ⟨s, e, rfl, by simp⟩
+        · obtain ⟨s', e', h1, h2⟩ := ih rest hrest g hg
+          exact ⟨s', e', h1, List.mem_cons_of_mem _ h2⟩
+    | _ => simp [segsOf] at h
+
+/-- **every fragment of a `-`, `|`, `+` cell, moved to its cell, is a proper grid line** — the
+hypothesis of the two theorems below holds for every drawing over the alphabet -/
+theorem alphabet_fragments_are_proper_lines (en : Entry) (hen : en ∈ [eDash, eBar, ePlus])
+    (nb : Dir → Entry) (hnb : ∀ d, nb d ∈ nbEntries) (c : Cell) :
+    ∀ f ∈ en.fragments nb, (f.absPos c).StrokeOk := by
+  have hok := strokes_in_every_neighbourhood en hen nb hnb
+  unfold cellOk at hok
+  split at hok
+  · rename_i segs hsegs
+    intro f hf
+    obtain ⟨s, e, rfl, hmem⟩ := segsOf_some _ _ hsegs f hf
+    simp only [sameSet, Bool.and_eq_true, List.all_eq_true] at hok
+    have h1 := hok.1 _ hmem
+    simp only [List.contains_iff_mem] at h1
+    obtain ⟨hlt, ⟨g1, g2⟩, ⟨g3, g4⟩⟩ := allSegs_proper _ (spec_subset _ _ _ _ _ _ h1)
+    simp only at hlt g1 g2 g3 g4
+    rw [cmp_lt_iff] at hlt
+    refine ⟨?_, ⟨?_, ?_⟩, ⟨?_, ?_⟩⟩
+    · rw [cmp_lt_iff]; simp only [Pt.add, Cell.origin]; omega
+    all_goals (simp only [Pt.add, Cell.origin]; omega)
+  · simp at hok
+
+/-- **the fragment merge keeps the stroked point set**: a rational point is stroked by some
+fragment after `merge_recursive` iff it was stroked by some fragment before -/
+theorem merge_keeps_the_stroked_points (len : List Char → Nat) (frags : List FragSpan)
+    (h : ∀ f ∈ frags, f.frag.StrokeOk) (n : Nat) (P : RPt) (hq : 0 < P.q) :
+    (∃ f ∈ G.mergeRec (FragSpan.merge len) n frags, f.frag.strokes P) ↔
+      (∃ f ∈ frags, f.frag.strokes P) :=
+  mergeRec_preserves_strokes len frags h n P hq
+
+/-- **a rectangle's outline is the union of the four lines it replaces** -/
+theorem rect_outline_is_its_lines (frags : List Frag) (r : Frag) (h : endorseRect frags = some r)
+    (hok : ∀ f ∈ frags, f.StrokeOk) (P : RPt) :
+    r.outline P ↔ ∃ f ∈ frags, f.strokes P :=
+  endorseRect_strokes frags r h hok P
+
+/-- the predicate on rational points is the code's `onSegment` at integer points -/
+theorem stroke_predicate_is_the_codes (s e p : Pt) :
+    OnSeg s e ⟨p.x, p.y, 1⟩ ↔ onSegment s e p = true := onSeg_int s e p
+
+/-! Non-vacuity: a proper box (four grid lines) satisfies the hypotheses of both theorems, is
+endorsed, and the centre of its top edge — a point with a half-integer coordinate in quarter
+cells — is on the outline. -/
+def boxLines : List Frag :=
+  [.line ⟨500, 1000⟩ ⟨3500, 1000⟩ false, .line ⟨500, 1000⟩ ⟨500, 5000⟩ false,
+   .line ⟨3500, 1000⟩ ⟨3500, 5000⟩ false, .line ⟨500, 5000⟩ ⟨3500, 5000⟩ false]
+
+example : ∀ f ∈ boxLines, f.StrokeOk := by
+  intro f hf
+  simp only [boxLines, List.mem_cons, List.mem_nil_iff, or_false] at hf
+  rcases hf with rfl | rfl | rfl | rfl <;>
+    exact ⟨by decide, ⟨by decide, by decide⟩, ⟨by decide, by decide⟩⟩
+example : endorseRect boxLines = some (.rect ⟨500, 1000⟩ ⟨3500, 5000⟩ false none false) := by decide
+example : (Frag.rect ⟨500, 1000⟩ ⟨3500, 5000⟩ false none false).outline ⟨4001, 2000, 2⟩ := by
+  left; refine ⟨by decide, by decide, by decide, by decide, by decide⟩
 
 /-! Non-vacuity: the three entries exist in the table and a concrete neighbourhood satisfies the
 hypothesis. -/
